@@ -431,3 +431,26 @@ R.contract(M + "FileAnonymizer.anonymize_file",
            raises={"ValueError": None, "OSError": None, "UnicodeDecodeError": None},
            raises_ensures=["implies(raised('ValueError'), ncalls('open') == 0)"],
            ensures=[WF4, WF6, ASOK, WOK, "SingleFileOK('in_file', 'out_file')"])
+
+
+# ---------------------------------------------------------------- FileAnonymizer.__init__: which lists reach IpAnonymizer
+R.contracts["netconan.ip_anonymization:IpAnonymizer.__init__"].record = True
+
+
+def _sp_ip4_from_own_options(eng, args, kw, n):
+    """Ip4FromOwnOptions(): if an IPv4 anonymizer was built, it was built once, with this FileAnonymizer's own
+    preserve_prefixes as prefixes and its own preserve_networks as preserved addresses (C04/C05: neither list is
+    dropped, swapped or replaced by a default)"""
+    cons = [e for k, e in eng.st.calls if k.endswith(":IpAnonymizer.__init__")]
+    if not cons:
+        return Conc(True)
+    if len(cons) != 1:
+        return Conc(False)
+    e = cons[0]
+    ok = _same(eng, e["preserve_prefixes"], eng.st.vars["preserve_prefixes"]) and \
+        _same(eng, e["preserve_addresses"], eng.st.vars["preserve_networks"])
+    return Conc(bool(ok))
+
+
+SPEC_BUILTINS["Ip4FromOwnOptions"] = _sp_ip4_from_own_options
+R.contracts[M + "FileAnonymizer.__init__"].ensures.append("Ip4FromOwnOptions()")
